@@ -221,7 +221,7 @@ func vpC19_FourSquares() {
 // once; thorough adds 23 and 41) and every a in [0, p): a root is reported exactly when a
 // is a square modulo p, it is reduced and squares to a.
 func vpC19_PrimeSqrt() {
-	primes := []int64{7, 13, 17}
+	primes := []int64{2, 7, 13, 17}
 	if vpParam("more", 0) == 1 {
 		primes = append(primes, 23, 41)
 	}
@@ -285,4 +285,42 @@ func vpC19_RandomPrimeTop() {
 	hi := new(big.Int).Add(lo, new(big.Int).Lsh(big.NewInt(1), c[1]))
 	vpAssert("a prime drawn near the top of the interval lies in the interval", p.Cmp(lo) >= 0 && p.Cmp(hi) <= 0)
 	vpAssert("a prime drawn near the top of the interval is prime", vpIsPrime(p))
+}
+
+func init() {
+	vpHarnesses["vpC19_ModSqrtProduct"] = vpC19_ModSqrtProduct
+}
+
+// C19-O12: square roots modulo a product of given coprime factors, from the real code of
+// ModSqrt, PrimeSqrt and Crt: for the factor lists (3,7), (7,3,5)... - two and three prime
+// factors, and the factor 4 next to primes - and every a in [0, n): a root is reported
+// exactly when a is a square modulo the product, and it squares to a.
+func vpC19_ModSqrtProduct() {
+	lists := [][]int64{{3, 7}, {3, 5, 7}, {7, 3, 5}, {4, 3, 7}, {3, 7, 11}}
+	fs := lists[vpChoose("factors", len(lists))]
+	n := int64(1)
+	var factors []*big.Int
+	for _, f := range fs {
+		n *= f
+		factors = append(factors, big.NewInt(f))
+	}
+	a := vpBigRange("a", big.NewInt(0), big.NewInt(n-1))
+	// reference: the set of squares modulo n
+	isSquare := make([]bool, 0, n)
+	seen := map[int64]bool{}
+	for r := int64(0); r < n; r++ {
+		seen[r*r%n] = true
+	}
+	for v := int64(0); v < n; v++ {
+		if seen[v] {
+			isSquare = append(isSquare, a.Cmp(big.NewInt(v)) == 0)
+		}
+	}
+	r, ok := ModSqrt(new(big.Int).Set(a), factors)
+	vpAssert("existence of a root modulo a product of factors is reported correctly", ok == vpAny(isSquare...))
+	if ok {
+		sq := new(big.Int).Mul(r, r)
+		sq.Mod(sq, big.NewInt(n))
+		vpAssert("the root modulo a product of factors squares to a", sq.Cmp(a) == 0)
+	}
 }
